@@ -316,3 +316,67 @@ Proof.
   rewrite int_lists_rowwise. apply map_ext. intros r. f_equal. symmetry.
   apply ints_to_strings_gen_map. apply width_log10_ge1.
 Qed.
+
+(* ---------- T3b, full: the repaired list-column parser on columns that may contain empty lists ---------- *)
+Definition pieces_of (ts : list (list Z)) : list (list Z) := match ts with [] => [[]] | _ => ts end.
+Lemma field_join ts : intercalate [44] ts ++ [44] = join_keep_last 44 (pieces_of ts).
+Proof. destruct ts as [|t ts]; [reflexivity|]. apply join_of_intercalate. discriminate. Qed.
+Lemma filter_pieces_of ts : Forall (fun t => t <> []) ts -> filter nonempty_piece (pieces_of ts) = ts.
+Proof. intros H. destruct ts as [|t ts]; [reflexivity|]. apply filter_nonempty_all. exact H. Qed.
+Lemma filter_concat {A} (p : A -> bool) : forall (ls : list (list A)), filter p (concat ls) = concat (map (filter p) ls).
+Proof. induction ls as [|l ls IH]; [reflexivity|]. cbn [concat map]. rewrite filter_app, IH. reflexivity. Qed.
+Lemma pieces_nosep ts : Forall (fun t => ~ In 44 t) ts -> Forall (fun t => ~ In 44 t) (pieces_of ts).
+Proof. intros H. destruct ts; [constructor; [intros []|constructor]|exact H]. Qed.
+Lemma Forall_concat {A} (P : A -> Prop) (ls : list (list A)) : Forall (Forall P) ls -> Forall P (concat ls).
+Proof. induction 1 as [|l ls Hl _ IH]; [constructor|]. cbn [concat]. apply Forall_app. split; assumption. Qed.
+
+Theorem parse_split_ints_fixed_exact : forall tss vss,
+  Forall2 (Forall2 valid_int) tss vss ->
+  parse_split_ints 44 (map (intercalate [44]) tss) = Some vss.
+Proof.
+  intros tss vss H. unfold parse_split_ints, parse_split_ints_gen.
+  destruct tss as [|ts0 tss0] eqn:Etss.
+  { inversion H; subst. reflexivity. }
+  assert (Hnil : tss <> []) by (rewrite Etss; discriminate).
+  rewrite <- Etss in *. clear Etss.
+  assert (Hrows : Forall (fun ts => Forall (fun t => ~ In 44 t) ts /\ Forall (fun t => t <> []) ts) tss).
+  { clear - H. induction H as [|ts vs tss vss Hr _ IH]; constructor; [|exact IH].
+    clear - Hr. induction Hr as [|t v ts vs [Hv _] _ [I1 I2]]; [split; constructor|].
+    pose proof (text_value_no_comma t v Hv) as [A B]. split; constructor; assumption. }
+  set (pss := map pieces_of tss).
+  assert (Etext : map (fun f => f ++ [44]) (map (intercalate [44]) tss) = map (join_keep_last 44) pss).
+  { subst pss. rewrite !map_map. apply map_ext. intros ts. apply field_join. }
+  rewrite Etext.
+  assert (Ecat : concat (map (join_keep_last 44) pss) = join_keep_last 44 (concat pss)).
+  { unfold join_keep_last. rewrite concat_map, <- concat_concat', map_map. reflexivity. }
+  rewrite Ecat, removelast_join.
+  assert (Hps : Forall (fun t => ~ In 44 t) (concat pss)).
+  { apply Forall_concat. subst pss. apply Forall_map. eapply Forall_impl; [|exact Hrows].
+    intros ts [A _]. apply pieces_nosep. exact A. }
+  assert (Hne : concat pss <> []).
+  { subst pss. destruct tss as [|ts tss']; [congruence|].
+    cbn [map concat]. destruct ts; discriminate. }
+  rewrite split_on_intercalate by assumption.
+  assert (Ecount : map (count_eq 44) (map (join_keep_last 44) pss) = map len pss).
+  { rewrite map_map. apply map_ext_in. intros ps Hin. apply count_join.
+    subst pss. apply in_map_iff in Hin. destruct Hin as [ts [E Hin]]. subst ps.
+    rewrite Forall_forall in Hrows. apply pieces_nosep. apply (Hrows ts Hin). }
+  rewrite Ecount. rewrite split_rows_concat.
+  assert (Efilter : filter nonempty_piece (concat pss) = concat tss).
+  { rewrite filter_concat. subst pss. rewrite map_map. f_equal.
+    rewrite <- (map_id tss) at 2. apply map_ext_in. intros ts Hin.
+    rewrite Forall_forall in Hrows. apply filter_pieces_of. apply (Hrows ts Hin). }
+  rewrite Efilter.
+  assert (Eitems : map (fun ps => len (filter nonempty_piece ps)) pss = map len vss).
+  { subst pss. rewrite map_map. clear - H Hrows.
+    induction H as [|ts vs tss vss Hr _ IH]; [reflexivity|].
+    inversion Hrows as [|? ? [_ Hn] Hrows']; subst. cbn [map]. rewrite (IH Hrows'). f_equal.
+    rewrite filter_pieces_of by exact Hn.
+    clear - Hr. induction Hr as [|? ? ? ? _ _ IH]; [reflexivity|]. rewrite !len_cons, IH. reflexivity. }
+  rewrite Eitems.
+  assert (Hall : Forall2 valid_int (concat tss) (concat vss)).
+  { clear - H. induction H as [|ts vs tss vss Hr _ IH]; [constructor|]. cbn [concat]. apply Forall2_app; assumption. }
+  assert (Evals : (match concat tss with [] => Some [] | _ => str_to_int_rows (concat tss) end) = Some (concat vss)).
+  { destruct (concat tss) eqn:E; [inversion Hall; reflexivity|]. rewrite <- E in *. apply str_to_int_exact. exact Hall. }
+  rewrite Evals. rewrite split_rows_concat. reflexivity.
+Qed.
